@@ -321,6 +321,25 @@ def main():
     obligations.append({"name": "gate:no-admitted-axiom-parameter", "ok": not grep_bad, "detail": grep_bad[:10]})
     obligations.append({"name": "gate:build", "ok": build_ok and bool(names), "detail": "" if build_ok else build_log[-600:]})
     driver_ok = os.path.exists(os.path.join(BUILD, "driver"))
+    if tier == "thorough" and names and not args.replay:
+        # independent re-check of the compiled theorems and everything they depend on; prints the axioms relied upon
+        try:
+            r = subprocess.run(["coqchk", "-silent", "-o", "-Q", COQ, "Oak"] + ["Oak.Props." + m for m in props_files(prop_id)],
+                               capture_output=True, text=True, timeout=3000, cwd=COQ)
+            out = r.stdout + r.stderr
+            m = re.search(r"\* Axioms:(.*?)\n\s*\n\* Constants/Inductives relying on type-in-type:(.*?)\n\s*\n"
+                          r"\* Constants/Inductives relying on unsafe \(co\)fixpoints:(.*?)\n\s*\n\* Inductives whose positivity is assumed:(.*?)\n",
+                          out, re.S)
+            if r.returncode == 0 and m:
+                axioms = [a.strip() for a in m.group(1).split("\n") if a.strip() and a.strip() != "<none>"]
+                unsafe = [x.strip() for g in (2, 3, 4) for x in m.group(g).split("\n") if x.strip() and x.strip() != "<none>"]
+                allowed = {x.split(".")[-1] for x in ALLOWED_AXIOMS}
+                okc = not unsafe and all(a.split(".")[-1].split(" ")[0] in allowed for a in axioms)
+                obligations.append({"name": "coqchk:independent-recheck", "ok": okc, "axioms": axioms, "detail": unsafe})
+            else:
+                obligations.append({"name": "coqchk:independent-recheck", "ok": False, "detail": out[-600:]})
+        except subprocess.TimeoutExpired:
+            obligations.append({"name": "coqchk:independent-recheck", "ok": False, "detail": "timeout"})
 
     # ---- replay mode
     if args.replay:
@@ -486,8 +505,11 @@ def main():
         "assumptions": prop.ASSUMPTIONS,
         "wall_s": round(wall, 2), "violations": len(vio_lines),
     }
-    os.makedirs(os.path.join(ROOT, "evidence"), exist_ok=True)
-    with open(os.path.join(ROOT, "evidence", prop_id + ".json"), "w") as fh:
+    # runs against a patched copy of pyoak (VERIF_PYOAK_SRC: mutant / seeded-change experiments) never overwrite
+    # the evidence of the real tree
+    ev_dir = os.path.join(ROOT, "evidence") if not os.environ.get("VERIF_PYOAK_SRC") else os.path.join(BUILD, "evidence-scratch")
+    os.makedirs(ev_dir, exist_ok=True)
+    with open(os.path.join(ev_dir, prop_id + ".json"), "w") as fh:
         json.dump(ev, fh, indent=1, sort_keys=True)
     log(f"[{prop_id}] tier={tier} seed={args.seed} theorems={len(names)} obligations={ev['coverage']['discharged']}/{len(obligations)} "
         f"cases={len(cases)} nontrivial={nontrivial} disagreements={len(disagreements)} kernel={k_n}:{'ok' if k_ok else 'FAIL'} wall={wall:.1f}s")
